@@ -93,4 +93,7 @@ def extra_contracts():
     wraps it, which the scope's `except CancelledError` would not recognise (the spawned tasks would then be awaited instead
     of cancelled and the task would not end cancelled)."""
     from .C08 import Exit
-    return [variant(Exit, "C07", ("P4:a-cancelled-exit-raises-CancelledError",))]
+    from .C11 import StreamBody
+    # ... and a context stream is a scope as well: "the tasks it spawned in those scopes are cancelled too" needs the stream's
+    # scope to own a task group (entered with the asynchronous protocol)
+    return [variant(Exit, "C07", ("P4:a-cancelled-exit-raises-CancelledError",)), variant(StreamBody, "C07", ("C06-P6",))]
